@@ -139,6 +139,7 @@ func classify(err error) string {
 		{"duplicated transaction in block", "duptx"},
 		{"mismatched transaction root", "txroot"},
 		{"not equal next block height", "height"},
+		{"not equal next header height", "height"},
 		{"is not the current block", "prevtip"},
 		{"cannot find pre header", "prev"},
 		{"get prev header error", "prev"},
